@@ -37,6 +37,10 @@ HARNESSES = [
      # -O0 without -g: a third of the compile time of -O1 -g (the variant is rebuilt whenever /repo/include changes)
      "flags": ["-O0", "-DVERIF_ASAN=1", "-DTETL_ENABLE_CONTRACT_CHECKS=1", "-fsanitize=address",
                "-fno-omit-frame-pointer"] + UBTRAP},
+    # another compiler and optimiser (review round): clang++ 14 -O2, signed overflow trapped by -ftrapv, division
+    # by zero / min / -1 by the hardware (SIGFPE); thorough tier only
+    {"name": "clang", "src": "harness.cpp", "compiler": "clang++", "thorough_only": True,
+     "flags": ["-O2", "-DTETL_ENABLE_CONTRACT_CHECKS=1", "-ftrapv"]},
 ]
 
 RULE = ("8-bit types: every value x every base 2..36 x buffer lengths {0, digits-1, digits, digits+1} (all lengths "
